@@ -346,8 +346,14 @@ class C04Monitor(BookTracker):
                 if so.vol0 != self.fill_sum[key] + so.rem:
                     res.violation("identity", "accepted-volume-not-fills-plus-resting-volume", {"order": so.brief()})
                 if so.obj is not None and so.obj.volume != so.rem:
-                    res.violation("identity", "order-volume-held-by-agent-differs-from-accepted-minus-fills",
-                                  {"order": so.brief(), "object_volume": so.obj.volume})
+                    if any(h["what"] == "resubmit" and h["obj"] is so.obj for h in self.hostile):
+                        # the agent handed this (accepted) object to the runner a second time: before-order hooks
+                        # are entitled to alter the pending order they are given, and they run before the market
+                        # refuses it and the run is aborted - the object's fields say nothing about the book
+                        res.count("resubmitted_object_altered_by_a_before_order_hook(not judged)")
+                    else:
+                        res.violation("identity", "order-volume-held-by-agent-differs-from-accepted-minus-fills",
+                                      {"order": so.brief(), "object_volume": so.obj.volume})
                 self._lifetime_shape(so, "resting")
             for so in book.all.values():
                 if so.state == "filled" and self.fill_sum[(book.market_id, so.oid)] != so.vol0:
